@@ -1300,9 +1300,53 @@ def stdout_pipe_case(exe):
         shutil.rmtree(top, ignore_errors=True)
 
 
+def kf_folder_case(exe, kind):
+    top = tempfile.mkdtemp(prefix='clirun-', dir=WORK)
+    try:
+        src = os.path.join(top, 'ws')
+        outd = os.path.join(top, 'out'); os.makedirs(outd)
+        if kind == 'glob_renamed':
+            # kf-c09-glob-import-of-renamed-type
+            tree(src, {'alpha/src/lib.rs': '#[typeshare]\n#[serde(rename = "UserAccount")]\npub struct Account { pub id: u32 }\n',
+                       'beta/src/lib.rs': 'use alpha::*;\n#[typeshare]\npub struct Holder { pub account: Account }\n'})
+            rc, out = run(exe, ['--lang', 'typescript', '--output-folder', outd, src], cwd=src, timeout=20)
+            p = os.path.join(outd, 'beta.ts')
+            if rc == 0 and os.path.exists(p) and re.search(r'account: Account\b', open(p).read()):
+                return 'beta.ts uses `Account` for a type that alpha.ts defines as `UserAccount` (reached through `use alpha::*`); single-file output says `UserAccount`'
+        elif kind == 'dot_crate_name':
+            # kf-c14-crate-name-from-dot
+            crate = os.path.join(src, 'my-models')
+            tree(src, {'my-models/src/lib.rs': '#[typeshare]\npub struct M { pub a: u32 }\n'})
+            rc, out = run(exe, ['--lang', 'typescript', '--output-folder', outd, '.'], cwd=crate, timeout=20)
+            if rc == 0 and os.path.exists(os.path.join(outd, '..ts')) and not os.path.exists(os.path.join(outd, 'my_models.ts')):
+                return 'run from inside the crate directory (`typeshare .. .`) the module is written to `..ts` instead of `my_models.ts`'
+        return None
+    finally:
+        shutil.rmtree(top, ignore_errors=True)
+
+
 def kf_case(exe, kind):
     if kind == 'stdout_pipe':
         return stdout_pipe_case(exe)
+    if kind in ('glob_renamed', 'dot_crate_name'):
+        return kf_folder_case(exe, kind)
+    if kind == 'py_keyword_content_key':
+        # kf-c10-python-keyword-tag-or-content-key
+        top = tempfile.mkdtemp(prefix='clirun-', dir=WORK)
+        try:
+            src = os.path.join(top, 'src')
+            tree(src, {'c/src/lib.rs': '#[typeshare]\n#[serde(tag = "kind", content = "from")]\npub enum Payment { Account(String), Cash { amount: u32 }, Nothing }\n'})
+            outp = os.path.join(top, 'out.py')
+            rc, out = run(exe, ['--lang', 'python', '--output-file', outp, src], cwd=src, timeout=20)
+            if rc == 0 and os.path.exists(outp):
+                import ast
+                try:
+                    ast.parse(open(outp).read())
+                except SyntaxError as ex:
+                    return 'with serde(content = "from") the generated Python module does not parse: %s (line %s)' % (ex.msg, ex.lineno)
+            return None
+        finally:
+            shutil.rmtree(top, ignore_errors=True)
     srcx, lang, ext, largs, pat, msg = KF_SRC[kind]
     top = tempfile.mkdtemp(prefix='clirun-', dir=WORK)
     try:
